@@ -71,15 +71,19 @@ where
             std::thread::Builder::new()
                 .name("timeout".to_owned())
                 .spawn(move || loop {
-                    let mut market = s1.market.lock();
-                    let now = SystemTime::now();
-                    if closing_time < now {
-                        log::debug!("Reached timeout, triggering shutdown");
-                        market.open = false;
+                    {
+                        let mut market = s1.market.lock();
+                        let now = SystemTime::now();
+                        if closing_time < now {
+                            log::debug!("Reached timeout, triggering shutdown");
+                            market.open = false;
+                        }
+                        if !market.open {
+                            // dropping `s1` wakes any waiting workers
+                            break;
+                        }
                     }
-                    if !market.open {
-                        break;
-                    }
+                    // The lock must not be held while sleeping: every worker needs it.
                     sleep(Duration::from_secs(1));
                 })
                 .unwrap();
@@ -173,6 +177,12 @@ impl<Job> JobBroker<Job> {
             market.job_batches.push(to_share);
             self.has_new_jobs.notify_one();
         }
+    }
+
+    /// See whether the market has stopped trading: a worker finished or panicked, or the timeout
+    /// expired. Workers should stop as well.
+    pub fn is_shut_down(&self) -> bool {
+        !self.market.lock().open
     }
 
     /// See whether the market is closed.
